@@ -83,6 +83,119 @@ def taint_reaches(an, fn, expr, node, param, sanitizer, depth=0, seen=None, ast_
     return None
 
 
+
+def _is_none_test(e, want_none):
+    """`X is None` (want_none) / `X is not None`: returns X"""
+    if isinstance(e, ast.Compare) and len(e.ops) == 1 and isinstance(e.comparators[0], ast.Constant) and e.comparators[0].value is None:
+        if isinstance(e.ops[0], ast.Is if want_none else ast.IsNot):
+            return e.left
+    if want_none and isinstance(e, ast.UnaryOp) and isinstance(e.op, ast.Not):
+        return e.operand
+    if not want_none and isinstance(e, (ast.Attribute, ast.Name)):
+        return e
+    return None
+
+
+def check_iterative_owner(ctx, an, f, g, reach, pname):
+    """The iterative spelling of the nearest-ancestor lookup:
+
+        owner = self
+        while <owner has no key file> and <owner has a parent>: owner = owner._parent
+
+    after which `owner` is the nearest configuration naming a key file, or the root.  Returns False when the accessor
+    is not written that way (the recursive spelling is checked by the caller)."""
+    loops = []
+    for w in ast.walk(f.node):
+        if not isinstance(w, ast.While) or len(w.body) != 1 or not isinstance(w.body[0], ast.Assign):
+            continue
+        st = w.body[0]
+        if not (len(st.targets) == 1 and isinstance(st.targets[0], ast.Name) and isinstance(st.value, ast.Attribute)
+                and st.value.attr == "_parent" and isinstance(st.value.value, ast.Name) and st.value.value.id == st.targets[0].id):
+            continue
+        loops.append((w, st.targets[0].id, st))
+    if not loops:
+        return False
+    w, var, step = loops[0]
+    conj = w.test.values if isinstance(w.test, ast.BoolOp) and isinstance(w.test.op, ast.And) else [w.test]
+    own_none = has_parent = False
+    extra = []
+    for c in conj:
+        a = _is_none_test(c, True)
+        b = _is_none_test(c, False)
+        if a is not None and isinstance(a, ast.Attribute) and "keyfile" in a.attr and isinstance(a.value, ast.Name) and a.value.id == var:
+            own_none = True
+        elif b is not None and isinstance(b, ast.Attribute) and b.attr == "_parent" and isinstance(b.value, ast.Name) and b.value.id == var:
+            has_parent = True
+        else:
+            extra.append(c)
+    # the climber starts at this configuration
+    wn = [n for n in g.nodes if n.ast is w.test or (n.ast is not None and any(x is n.ast for x in ast.walk(w.test)))]
+    starts_self = False
+    if wn:
+        srcs = value_sources(f, ast.Name(id=var, ctx=ast.Load()), wn[0])
+        starts_self = any(k == "param" and p == f.self_name for k, p in srcs) and all(
+            (k == "param" and p == f.self_name) or (k == "expr" and p is step.value) for k, p in srcs)
+    ctx.ob("keyfile.climbs-parent", f, "%s: while ...: %s = %s._parent" % (pname, var, var), has_parent and starts_self and not extra,
+           "walks from this configuration towards the root through ._parent" if has_parent and starts_self and not extra else
+           "the walk towards the root %s" % ("does not start at this configuration" if not starts_self else
+                                             "has an extra stop condition (%s)" % ", ".join(ast.unparse(c) for c in extra) if extra else
+                                             "does not test for a parent"), node=wn[0] if wn else None)
+    ctx.ob("keyfile.own-before-parent", f, w.test, own_none,
+           "the walk stops at the first configuration that names a key file" if own_none else
+           "the walk does not stop at a configuration that names its own key file: an ancestor's key wins", node=wn[0] if wn else None)
+
+    def is_owner(e, at):
+        if not isinstance(e, ast.Name):
+            return False
+        srcs = value_sources(f, e, at)
+        return bool(srcs) and any(k == "expr" and p is step.value for k, p in srcs) and all(
+            (k == "param" and p == f.self_name) or (k == "expr" and p is step.value) for k, p in srcs)
+
+    def is_owner_keyfile(e, at):
+        if isinstance(e, ast.Attribute) and "keyfile" in e.attr and not e.attr.endswith("filename"):
+            return is_owner(e.value, at)
+        if isinstance(e, ast.Name):
+            srcs = value_sources(f, e, at)
+            return bool(srcs) and all(k == "expr" and isinstance(p, ast.Attribute) and is_owner_keyfile(p, None) for k, p in srcs)
+        return False
+    for n in g.nodes:
+        if n not in reach:
+            continue
+        uses_default = n.kind in ("call", "return", "assign") and n.ast is not None and any(
+            isinstance(x, ast.Attribute) and x.attr == "DEFAULT_CINCOKEY_FILEPATH" for x in ast.walk(n.ast)) and \
+            (n.kind != "call" or any(t.kind == "ctor" for t in an.targets(f, n)))
+        if not uses_default or n.kind == "assign" and isinstance(n.ast.value, ast.Call):
+            continue
+        ok = False
+        for t, tr in dominating_guards(an, f, n):
+            a = _is_none_test(t.ast, True) if tr else _is_none_test(t.ast, False)
+            if a is not None and is_owner_keyfile(a, t):
+                ok = True
+        ctx.ob("keyfile.default-last", f, n.ast, ok and own_none and has_parent,
+               "the default key file is used only when the walk ended at the root without finding a key file" if ok and own_none and has_parent else
+               "the default key file can be chosen although this configuration or an ancestor names one", node=n)
+    # what is handed out is the key file of the configuration the walk ended at
+    for r in g.nodes:
+        if r.kind != "return" or r not in reach or r.ast.value is None:
+            continue
+        v = r.ast.value
+        if any(isinstance(x, ast.Attribute) and x.attr == "DEFAULT_CINCOKEY_FILEPATH" for x in ast.walk(v)):
+            continue
+        base = v.value if isinstance(v, ast.Attribute) and v.attr == "filename" else v
+        ok = is_owner_keyfile(base, r)
+        ctx.ob("keyfile.result-of-walk", f, v, ok, "returns the key file of the configuration the walk ended at" if ok else
+               "returns %s, not the key file found by the walk" % ast.unparse(v), node=r)
+    # a default key file created here is kept by the configuration the walk ended at (the root)
+    for n in g.nodes:
+        if n.kind == "assign" and n in reach and isinstance(n.ast, ast.Assign) and isinstance(n.ast.value, ast.Call) and any(
+                t.kind == "ctor" for t in an.targets(f, n) ) :
+            tgt = n.ast.targets[0]
+            ok = isinstance(tgt, ast.Attribute) and is_owner(tgt.value, n)
+            ctx.ob("keyfile.default-kept-at-root", f, n.ast, ok, "the default key file is stored on the root" if ok else
+                   "the default key file is not stored on the configuration the walk ended at", node=n)
+    return True
+
+
 def check(ctx):
     an, model = ctx.an, ctx.model
     KeyFile = model.cls("KeyFile")
@@ -183,6 +296,8 @@ def check(ctx):
         f = model.method("Config", pname)
         g = an.cfg(f)
         reach = reachable_from_entry(an, f)
+        if check_iterative_owner(ctx, an, f, g, reach, pname):
+            continue
         # the default is used only without a parent and without an own key file
         for n in g.nodes:
             if n not in reach:
